@@ -80,7 +80,7 @@ impl Run {
 		}
 	}
 	fn refresh_all(&mut self, i: usize) {
-		for name in &["default", "a1"] {
+		for name in &["default", "a1", "a2"] {
 			self.s.with(i, |b, m| {
 				let _ = owner::set_active_account(b, name);
 				let pk = b.parent_key_id();
@@ -134,13 +134,17 @@ fn main() {
 		s.add_wallet("w1", None, false);
 		for i in 0..2 {
 			s.with(i, |b, m| owner::create_account_path(b, m, "a1")).unwrap();
+			s.with(i, |b, m| owner::create_account_path(b, m, "a2")).unwrap();
 		}
 		let mut r = Run { s, p: Prng::new(hseed), known: BTreeMap::new() };
+		// in half of the histories the funded second account is the THIRD path: the account in
+		// between never holds anything (a gap in the funded account paths)
+		let fa: &'static str = if r.p.coin() { "a2" } else { "a1" };
 		// ---- activity of wallet 0 (and its counterparty 1)
 		let n_blocks = r.p.range(4, 9);
 		for k in 0..n_blocks {
 			if k == n_blocks / 2 {
-				r.s.with(0, |b, _| owner::set_active_account(b, "a1")).unwrap();
+				r.s.with(0, |b, _| owner::set_active_account(b, fa)).unwrap();
 			}
 			r.s.mine(0, 1);
 			r.learn(0);
@@ -157,9 +161,9 @@ fn main() {
 			let amount = r.p.range(1_000_000_000, 70_000_000_000);
 			let change = *r.p.pick(&[1u32, 1, 2, 3]);
 			match r.p.below(5) {
-				0 => { let d = if r.p.coin() { Some("a1") } else { None }; r.pay(1, 0, amount, None, d, change); }
-				1 => { r.pay(0, 0, amount, None, Some("a1"), change); }
-				2 => { r.pay(0, 1, amount, Some("a1"), None, change); }
+				0 => { let d = if r.p.coin() { Some(fa) } else { None }; r.pay(1, 0, amount, None, d, change); }
+				1 => { r.pay(0, 0, amount, None, Some(fa), change); }
+				2 => { r.pay(0, 1, amount, Some(fa), None, change); }
 				_ => { r.pay(0, 1, amount, None, None, change); }
 			}
 			r.learn(0);
@@ -186,11 +190,13 @@ fn main() {
 		let res = guarded(|| owner::scan(r.s.wallets[c].inst.clone(), None, None, false, &None));
 		let rc = match &res { Err(_) => vec![2u64], Ok(Err(e)) => vec![1, err_class(e)], Ok(Ok(_)) => vec![0] };
 		let restored = r.s.snapshot(c);
+		// the account paths the restored wallet knows (every restored output must belong to one)
+		let accounts: Vec<u64> = r.s.with(c, |b, _| b.acct_path_iter().map(|m| key_pair(&m.path).0).collect());
 		let res2 = guarded(|| owner::scan(r.s.wallets[c].inst.clone(), None, None, false, &None));
 		let rc2 = match &res2 { Err(_) => vec![2u64], Ok(Err(e)) => vec![1, err_class(e)], Ok(Ok(_)) => vec![0] };
 		let restored2 = r.s.snapshot(c);
 		out.line(&json!({"kind": "restore", "seed": hseed.to_string(), "batch": batch, "chain": chain,
-			"rc": rc, "orig": orig, "restored": restored, "rc2": rc2, "restored2": restored2}));
+			"rc": rc, "orig": orig, "restored": restored, "rc2": rc2, "restored2": restored2, "accounts": accounts}));
 
 		// ---- (2) inject divergences into wallet 0 and repair by scanning
 		let outs: Vec<OutputData> = r.s.with(0, |b, _| b.iter().collect());
